@@ -23,10 +23,10 @@ BOUNDS = {  # property -> (quick max, thorough max, description of the enumerate
     'C06': (2, 2, 'about 80 portable types (every definition kind, ids across all compact size classes, unicode / empty strings) and 2-entry registries'),
     'C07': (2, 2, 'about 90 registries of 0..2 entries over every entry shape (every definition kind, ids across the compact size classes, unicode / empty strings): decode(encode(r)) == r, exact consumption with a 3-byte tail, pairwise distinct encodings'),
     'C08': (2, 2, 'about 130 registries of 0..3 entries over every entry shape (every definition kind with and without its optional members, ids in every order, enums of up to 300 variants): serde_json::to_value equals an independently built documented shape; from_str(to_string(r)) == r; from_value(to_value(r)) == r; agrees with the SCALE round trip'),
-    'C10': (2, 3, 'all registries of <= max entries over all entry shapes (every definition kind, parameters present / skipped / mixed) x all filters'),
+    'C10': (2, 3, 'all registries of <= max entries over all entry shapes (every definition kind, parameters present / skipped / mixed, two different ids inside one composite / one variant) x all filters'),
     'C11': (2, 3, 'all registration histories of length <= max; all pairs of pool types with one of 3 recursive roots registered in two orders'),
-    'C12': (2, 3, 'all builder scripts of length <= max+1 over 18 near-duplicate values (differing in one leaf, or only in the order of variants / fields / tuple members / parameters / docs), next_type_id, get'),
-    'C14': (2, 2, 'resolve: ill-formed registries of 0..3 entries, ids 0..len+2 and the u32 extremes; decode: every truncation, 3 bit flips per byte and a byte insertion at every position of the encodings of ~18 registries (no panic, successful decodes re-encode to the consumed bytes); JSON (serde_json): every truncation, 9 byte substitutions, a deletion and an insertion at every position of the JSON text of the registries with <= 200 encoded bytes, plus oversized numbers, duplicate / unknown keys and 5000-deep nesting (no panic, accepted texts are registries that survive a JSON round trip)'),
+    'C12': (2, 3, 'all builder scripts of length <= max+1 over 21 near-duplicate values (differing in one leaf, only in the order of variants / fields / tuple members / parameters / docs, or only OUTSIDE the definition: path / docs), next_type_id, get'),
+    'C14': (2, 2, 'resolve: ill-formed registries of 0..3 entries, ids 0..len+2 and the u32 extremes; memory: every byte position of the encodings of <= 120 bytes overwritten with the compact encodings of 100 000, 2^30 - 1 and u32::MAX, largest single allocation request <= 1 MiB + 1 KiB per input byte (counting allocator); decode: every truncation, 3 bit flips per byte and a byte insertion at every position of the encodings of ~18 registries (no panic, successful decodes re-encode to the consumed bytes); JSON (serde_json): every truncation, 9 byte substitutions, a deletion and an insertion at every position of the JSON text of the registries with <= 200 encoded bytes, plus oversized numbers, duplicate / unknown keys and 5000-deep nesting (no panic, accepted texts are registries that survive a JSON round trip)'),
     'C16': (2, 2, 'all pairs from a pool of 16 types (wrappers of wrappers, arrays of different length, PhantomData instantiations)'),
     'C17': (2, 2, 'all triples of 4 field kinds in named / unnamed / tuple position, variant builders, portable builders'),
     'C18': (4, 5, 'all strings of length <= max over a 14-symbol class-representative alphabet (one symbol per gap of the ASCII table around the identifier classes) plus every single ASCII character in head / tail / after-prefix position; all triples of 8 segments; Path::new / new_with_replace / Display'),
